@@ -1145,7 +1145,8 @@ func (f *Frame) anchoredAsserts(ins ssa.Instruction, st *State) {
 		return
 	}
 	switch ins.(type) {
-	case *ssa.MapUpdate, *ssa.Store, ssa.CallInstruction, *ssa.Return:
+	case *ssa.MapUpdate, *ssa.Store, ssa.CallInstruction, *ssa.Return, *ssa.BinOp:
+		// (a comparison anchors the "if" it belongs to: ssa.If itself has no position)
 	default:
 		return
 	}
